@@ -242,6 +242,12 @@ def k_cli(run, case):
     (cropped) reference with the offset-corrected estimate (C01's / C02's executor and reference
     pipeline, which associates with the exact-rational model of this check).
     """
+    if case.get("tool") == "traj":
+        # evo_traj --ref ... --sync / --align: trajectories of different density and extent than the reference
+        from vmon.props import C15
+        C15.k_cli(run, case)
+        run.hit("evo_traj runs with synchronisation to a reference judged")
+        return
     from vmon.props import C01, C02
     rec = (C01.k_cli if case.get("tool", "ape") == "ape" else C02.k_cli)(run, case)
     run.hit("evo_ape / evo_rpe runs with time offsets and cropping judged" if rec else "run refused / ambiguous (not judged)")
@@ -281,7 +287,10 @@ def main(run):
     for i in run.mine({"quick": 100, "thorough": 2500}[run.tier]):
         k_cli(run, run.case("cli", i, tool=["ape", "rpe"][i % 2], fmt=["tum", "euroc"][(i // 2) % 2],
                             force_options=["crop"] if i % 3 else []))
-    run.need("evo_ape / evo_rpe runs with time offsets and cropping judged", "assoc: pair within max_diff", "assoc: paired with a nearest counterpart",
+    for i in run.mine({"quick": 80, "thorough": 2000}[run.tier]):
+        k_cli(run, run.case("cli", 10**6 + i, tool="traj", fmt=["tum", "euroc"][i % 2],
+                            force={"use_ref": True, "sync": True, "merge": False, "downsample": False, "motion_filter": False}))
+    run.need("evo_traj runs with synchronisation to a reference judged", "evo_ape / evo_rpe runs with time offsets and cropping judged", "assoc: pair within max_diff", "assoc: paired with a nearest counterpart",
              "assoc: every uncontested in-range pose is paired",
              "assoc: increasing order, no pose used twice", "inputs unmodified",
              "output pose is an unmodified copy (pose+stamp together)",
